@@ -6,7 +6,7 @@ from props import vfsrun
 from props.common import replay_record
 
 
-def grid(out, label, tier, extra=(), nworkers=14, groups_per_chunk=8):
+def grid(out, label, tier, extra=(), nworkers=14, groups_per_chunk=8, pairmode=None):
     vlib.build("grid")
     d = sub("grid-" + label)
     pe = os.path.join(d, "penv.json")
@@ -17,7 +17,7 @@ def grid(out, label, tier, extra=(), nworkers=14, groups_per_chunk=8):
         vlib.stall_violation(out, s, "grid:" + label)
         return
     chunks = vlib.split_chunks(files, d, label + "c", groups_per_chunk)
-    checked, classes = vlib.tlc_validate("Trace_Pair", chunks, extra_env=dict(PENV=pe))
+    checked, classes = vlib.tlc_validate("Trace_Pair", chunks, extra_env=dict(PENV=pe, **({"PAIRMODE": pairmode} if pairmode else {})))
     out.absorb("Trace_Pair", checked, classes, label=label, grouped="pair")
     out.cov["trees"] = out.cov.get("trees", 0) + vlib.count_lines(files)
 
